@@ -132,6 +132,10 @@ func (e *Enc) val(fr *Frame, v ssa.Value) Term {
 		switch a.kind {
 		case ACell, AStructPtr, AArrMem:
 			return a.ref
+		case AField:
+			// address of a field of a heap object: a stable value, function of the object (used to index ghosts such as
+			// the counter of a sync.WaitGroup embedded by value)
+			return e.fieldPtr(a.key, a.ref)
 		}
 		e.problem("%s: interior pointer %s used as a value", fr.fn.Name(), v.Name())
 		t := e.fresh("ptr", SInt)
@@ -581,4 +585,12 @@ func identName(d *ssa.DebugRef) string {
 		}
 	}
 	return ""
+}
+
+func (e *Enc) fieldPtr(key string, ref Term) Term {
+	fn := "fptr_" + mangle(key)
+	e.declare(fmt.Sprintf("(declare-fun %s (Int) Int)", fn))
+	t := T(SInt, "(%s %s)", fn, ref.S)
+	e.assume(tTrue, T(SBool, "(> %s 0)", t.S))
+	return t
 }
